@@ -145,7 +145,9 @@ impl IndicatorInstance for ChandeMomentumOscillatorInstance {
 
 		let sum = self.pos_sum + self.neg_sum;
 		let value = if sum != 0. {
-			(self.pos_sum - self.neg_sum) / sum
+			// the running sums keep rounding residue of either sign once the source stops moving: the quotient of two
+			// residues must not leave the documented range
+			((self.pos_sum - self.neg_sum) / sum).clamp(-1., 1.)
 		} else {
 			0.
 		};
